@@ -103,6 +103,9 @@ Proofs/ParsePow2.vos Proofs/ParsePow2.vok Proofs/ParsePow2.required_vos: Proofs/
 Proofs/ParseGen.vo Proofs/ParseGen.glob Proofs/ParseGen.v.beautified Proofs/ParseGen.required_vo: Proofs/ParseGen.v Base.vo Prim.vo Model/Digit.vo Model/Core.vo Model/Shift.vo Model/AddSub.vo Model/Bits.vo Model/Parse.vo Proofs/ParseSpec.vo Proofs/ParseLoops.vo Proofs/ParseArith.vo Proofs/ParsePow2.vo Proofs/ParseDeps.vo
 Proofs/ParseGen.vio: Proofs/ParseGen.v Base.vio Prim.vio Model/Digit.vio Model/Core.vio Model/Shift.vio Model/AddSub.vio Model/Bits.vio Model/Parse.vio Proofs/ParseSpec.vio Proofs/ParseLoops.vio Proofs/ParseArith.vio Proofs/ParsePow2.vio Proofs/ParseDeps.vio
 Proofs/ParseGen.vos Proofs/ParseGen.vok Proofs/ParseGen.required_vos: Proofs/ParseGen.v Base.vos Prim.vos Model/Digit.vos Model/Core.vos Model/Shift.vos Model/AddSub.vos Model/Bits.vos Model/Parse.vos Proofs/ParseSpec.vos Proofs/ParseLoops.vos Proofs/ParseArith.vos Proofs/ParsePow2.vos Proofs/ParseDeps.vos
-Proofs/Parse.vo Proofs/Parse.glob Proofs/Parse.v.beautified Proofs/Parse.required_vo: Proofs/Parse.v Base.vo Prim.vo Model/Digit.vo Model/Core.vo Model/Shift.vo Model/AddSub.vo Model/Bits.vo Model/Parse.vo Proofs/ParseSpec.vo Proofs/ParseLoops.vo Proofs/ParseArith.vo Proofs/ParsePow2.vo Proofs/ParseGen.vo Proofs/ParseDeps.vo
-Proofs/Parse.vio: Proofs/Parse.v Base.vio Prim.vio Model/Digit.vio Model/Core.vio Model/Shift.vio Model/AddSub.vio Model/Bits.vio Model/Parse.vio Proofs/ParseSpec.vio Proofs/ParseLoops.vio Proofs/ParseArith.vio Proofs/ParsePow2.vio Proofs/ParseGen.vio Proofs/ParseDeps.vio
-Proofs/Parse.vos Proofs/Parse.vok Proofs/Parse.required_vos: Proofs/Parse.v Base.vos Prim.vos Model/Digit.vos Model/Core.vos Model/Shift.vos Model/AddSub.vos Model/Bits.vos Model/Parse.vos Proofs/ParseSpec.vos Proofs/ParseLoops.vos Proofs/ParseArith.vos Proofs/ParsePow2.vos Proofs/ParseGen.vos Proofs/ParseDeps.vos
+Proofs/Parse.vo Proofs/Parse.glob Proofs/Parse.v.beautified Proofs/Parse.required_vo: Proofs/Parse.v Base.vo Prim.vo Model/Digit.vo Model/Core.vo Model/Shift.vo Model/AddSub.vo Model/Bits.vo Model/Parse.vo Proofs/ParseSpec.vo Proofs/ParseLoops.vo Proofs/ParseArith.vo Proofs/ParsePow2.vo Proofs/ParseGen.vo Proofs/ParseDeps.vo Proofs/ParseSlice.vo
+Proofs/Parse.vio: Proofs/Parse.v Base.vio Prim.vio Model/Digit.vio Model/Core.vio Model/Shift.vio Model/AddSub.vio Model/Bits.vio Model/Parse.vio Proofs/ParseSpec.vio Proofs/ParseLoops.vio Proofs/ParseArith.vio Proofs/ParsePow2.vio Proofs/ParseGen.vio Proofs/ParseDeps.vio Proofs/ParseSlice.vio
+Proofs/Parse.vos Proofs/Parse.vok Proofs/Parse.required_vos: Proofs/Parse.v Base.vos Prim.vos Model/Digit.vos Model/Core.vos Model/Shift.vos Model/AddSub.vos Model/Bits.vos Model/Parse.vos Proofs/ParseSpec.vos Proofs/ParseLoops.vos Proofs/ParseArith.vos Proofs/ParsePow2.vos Proofs/ParseGen.vos Proofs/ParseDeps.vos Proofs/ParseSlice.vos
+Proofs/ParseSlice.vo Proofs/ParseSlice.glob Proofs/ParseSlice.v.beautified Proofs/ParseSlice.required_vo: Proofs/ParseSlice.v Base.vo Prim.vo Model/Digit.vo Model/Core.vo Model/Shift.vo Model/AddSub.vo Model/Bits.vo Model/Parse.vo Proofs/ParseSpec.vo Proofs/ParseLoops.vo Proofs/ParseArith.vo Proofs/ParsePow2.vo
+Proofs/ParseSlice.vio: Proofs/ParseSlice.v Base.vio Prim.vio Model/Digit.vio Model/Core.vio Model/Shift.vio Model/AddSub.vio Model/Bits.vio Model/Parse.vio Proofs/ParseSpec.vio Proofs/ParseLoops.vio Proofs/ParseArith.vio Proofs/ParsePow2.vio
+Proofs/ParseSlice.vos Proofs/ParseSlice.vok Proofs/ParseSlice.required_vos: Proofs/ParseSlice.v Base.vos Prim.vos Model/Digit.vos Model/Core.vos Model/Shift.vos Model/AddSub.vos Model/Bits.vos Model/Parse.vos Proofs/ParseSpec.vos Proofs/ParseLoops.vos Proofs/ParseArith.vos Proofs/ParsePow2.vos
